@@ -199,6 +199,49 @@ def encoder_rules(chk, fx, enc):
     chk.floor('value encoder arms recognised', len(seen), 8)
 
 
+def member_rule(chk, fx):
+    chk.rule('C18-members', 'the object written by JsonGenerator::transpile has a separator exactly between two members: the `,` is produced by joining the non-empty member texts, or '
+                            'is appended under a test of the member that follows it — a chunk that yields no member (a private binding) must not leave a dangling `,`')
+    f = fx.fn(TR, 'JsonGenerator::transpile')
+    joins = [c for c in T.calls(f['body']) if c.get('k') == 'MCall' and c['n'] == 'join' and c['a'] and ',' in ((T.peel(c['a'][0]).get('v') or {}).get('str') or '')]
+    pushes = [n for n in T.walk(f['body']) if n.get('k') == 'AssignOp' and n.get('op') == '+=' and ',' in ((T.peel(n['y']).get('v') or {}).get('str') or '')]
+    pushes += [c for c in T.calls(f['body']) if c.get('k') == 'MCall' and c['n'] in ('push_str', 'push') and c['a'] and ',' in str((T.peel(c['a'][0]).get('v') or {}).get('str') or (T.peel(c['a'][0]).get('v') or {}).get('char') or '')]
+    if not chk.need(joins or pushes, 'JsonGenerator::transpile: no separator is written'):
+        return
+    for j in joins:
+        # the joined collection must have been filtered for empty members
+        src = T.show(j['r'])
+        env = VSlet(f)
+        chain = T.show(env.get(T.peel(j['r']).get('n'), j['r'])) if T.peel(j['r']).get('k') == 'Local' else src
+        if 'filter' in chain and 'is_empty' in chain:
+            chk.ok('C18-members', 'join', sample='members.join(",\\n") over the non-empty member texts')
+        else:
+            chk.bad('C18-members', 'JsonGenerator::transpile', 'join-unfiltered', 'the member texts are joined without removing the empty ones: a chunk that yields no member leaves `,,` or a '
+                    'trailing `,`', TR, j.get('l'))
+    for p_ in pushes:
+        # the separator is appended: its condition must look at the member that follows (a local bound to transpile_expr(..) earlier in the same iteration)
+        ok_ = False
+        for n, ctx in T.walk_ctx(f['body']):
+            if n is p_:
+                for c in ctx:
+                    if c[0] == 'if':
+                        locs = [x for x in T.walk(c[1]) if x.get('k') == 'Local']
+                        for l_ in locs:
+                            binding = [b for b in T.walk(f['body']) if b.get('k') == 'Let' and b['pat'].get('k') == 'Bind' and b['pat'].get('id') == l_.get('id')]
+                            if binding and any(cc.get('k') == 'MCall' and cc['n'] == 'transpile_expr' for cc in T.calls(binding[0].get('init') or {})) and binding[0]['l'] <= p_.get('l', 0):
+                                ok_ = True
+        if ok_:
+            chk.ok('C18-members', ('push', p_.get('l')))
+        else:
+            chk.bad('C18-members', 'JsonGenerator::transpile', 'separator-before-member', 'a `,` is appended before it is known whether the chunk that follows yields a member (the test looks at '
+                    'the previous chunk): `.a = 1` followed by a private `b = 2` gives `{"a": 1,\\n\\n}`, which is not JSON', TR, p_.get('l'))
+
+
+def VSlet(f):
+    from sa.kinds import vspec as VS
+    return VS.let_env(f)
+
+
 def run(chk):
     fx = F.Facts()
     chk.rule('C18-encode', 'in JsonGenerator every piece of source text or value text that flows into the output (Literal token content, <ValueObj as Display>::to_string) '
@@ -244,6 +287,7 @@ def run(chk):
                     elif not any(c.get('k') == 'MCall' and c['n'] == 'to_string' for c in T.calls(arm['b'])):
                         chk.lost.append('%s: the Expr::Literal arm produces its text in an unrecognised way' % where)
     encoder_rules(chk, fx, enc)
+    member_rule(chk, fx)
     return ('Flow rule inside JsonGenerator (typed HIR: receiver types of to_string), a table rule on the string encoder against the escapes of RFC 8259, and a per-variant rule on '
             'the value encoder. That the values equal the initializers (constant evaluation) is not decided.'), {}
     return ('Flow rule inside JsonGenerator (typed HIR: receiver types of to_string). Decides that value text is encoded; that the values equal the initializers is not decided.'), {}
